@@ -47,6 +47,9 @@ func (core *JApiCore) buildUserTypes() *jerr.JApiError {
 				core.userTypes.Set(k, jschema.New(k, v.BodyCoords.Read()))
 			}
 		case notation.SchemaNotationRegex:
+			if !v.BodyCoords.IsSet() {
+				return // The empty body will be reported when the type is added to the catalog.
+			}
 			var oo []regex.Option
 			if core.useFixedSeedForRegex {
 				oo = append(oo, regex.WithGeneratorSeed(0))
